@@ -108,7 +108,7 @@ def gen_documents(ctx, n):
             text = gen.render(b, gen.Layout(rng, plain=False))
             out.append((text, "free-layout"))
             continue
-        lines = gen.render(b).split("\n")
+        lines = (gen.symbolset_text(rng) if i % 11 == 5 else gen.render(b)).split("\n")   # every 11th document is a symbol file (SYMBOLSET root)
         res = []
         k = 0
         for ln in lines:
